@@ -238,17 +238,32 @@ pub open spec fn day_factor(txs: Seq<GbpTransaction>, sell_idx: int, n: int, c0:
         if tx.ticker@ == txs[sell_idx].ticker@ && tx.date.d() == txs[sell_idx].date.d() { ratio_effect(tx, c) } else { c }
     }
 }
-/// C10 / C01.split_rescale: the factor that converts a share count at the sale into the units current at index `hi`:
-/// the disposal day's own corporate actions, then SPLIT and UNSPLIT lines of the SAME security dated inside the 30-day
-/// window after the sale, between the two lines, compose in order
-pub open spec fn split_factor(txs: Seq<GbpTransaction>, sell_idx: int, hi: int) -> real
+/// composition, in line order and on top of the disposal day's own corporate actions, of the SPLIT and UNSPLIT lines of the
+/// SAME security that lie strictly between lines `sell_idx` and `hi`, are dated inside the 30-day window after the sale and
+/// before day `cut`
+pub open spec fn win_fold(txs: Seq<GbpTransaction>, sell_idx: int, hi: int, cut: int) -> real
     decreases hi
 {
     if hi <= sell_idx + 1 || hi > txs.len() || sell_idx < 0 { day_factor(txs, sell_idx, txs.len() as int, 1real) } else {
-        let c = split_factor(txs, sell_idx, hi - 1);
+        let c = win_fold(txs, sell_idx, hi - 1, cut);
         let tx = txs[hi - 1];
-        if tx.ticker@ == txs[sell_idx].ticker@ && in_bnb_window(txs[sell_idx].date.d(), tx.date.d()) { ratio_effect(tx, c) } else { c }
+        if tx.ticker@ == txs[sell_idx].ticker@ && in_bnb_window(txs[sell_idx].date.d(), tx.date.d()) && tx.date.d() < cut { ratio_effect(tx, c) } else { c }
     }
+}
+/// C10 / C01.split_rescale: the factor that converts a share count at the sale into the units of the acquisition at line `k`:
+/// a SPLIT/UNSPLIT takes effect at the end of its day (as in Matcher::process: the day's purchases and sales come first), so
+/// only those dated BEFORE the acquisition's day count, wherever they are listed within their own day
+pub open spec fn split_factor(txs: Seq<GbpTransaction>, sell_idx: int, k: int) -> real {
+    if 0 <= k < txs.len() { win_fold(txs, sell_idx, k, txs[k].date.d()) } else { day_factor(txs, sell_idx, txs.len() as int, 1real) }
+}
+/// two cut days that separate the window lines before `hi` in the same way give the same factor
+pub proof fn lemma_win_fold_cut(txs: Seq<GbpTransaction>, sell_idx: int, hi: int, c1: int, c2: int)
+    requires forall|j: int| sell_idx < j < hi && j < txs.len() && txs[j].ticker@ == txs[sell_idx].ticker@ && in_bnb_window(txs[sell_idx].date.d(), (#[trigger] txs[j]).date.d())
+        ==> (txs[j].date.d() < c1 <==> txs[j].date.d() < c2)
+    ensures win_fold(txs, sell_idx, hi, c1) == win_fold(txs, sell_idx, hi, c2)
+    decreases hi
+{
+    if hi <= sell_idx + 1 || hi > txs.len() || sell_idx < 0 {} else { lemma_win_fold_cut(txs, sell_idx, hi - 1, c1, c2); }
 }
 pub open spec fn leg_acq_d(m: MatchResult) -> int { m.match_detail.acquisition_date->Some_0.d() }
 /// 30-day legs come out earliest acquisition first (hidden from callers: the two-index quantifier is costly and no caller unfolds it)
